@@ -32,7 +32,16 @@ GAS_NAMES = ['CO_gas', 'H2O_g', 'O2_gas', 'H2_gas', 'NH3(g)', 'CO', 'H2', 'G1', 
 REF_NAMES = ['R', 'Pt_bulk', 'vacancies', 'Pt(S)', 'slab', 'Ni_surf_a', 'Z']
 PHASE_SUFFIXES = ['fcc', 'CO(S)', 'ML_a', 'sites', 'brg', 'top_', 'ML hollow', 'PH']
 KW_CHARS = set('_kwargs')
-GRID_FORMS = ['list', 'farray', 'ilist', 'iarray', 'arange', 'range']
+GRID_FORMS = ['list', 'farray', 'tuple', 'npscalars', 'ilist', 'iarray', 'arange', 'range']
+ORDERS = ['asc', 'desc', 'shuf', 'dup']
+NORM_MODES = ['none', 'coverage', 'positive', 'signed', 'logsigned', 'int']
+NORM_CONTAINERS = ['list', 'ndarray', 'tuple']
+RXN_CLASSES = ['Reaction', 'SurfaceReaction', 'ChemkinReaction']
+SCAN_VARS = ['T', 'P', 'G1_kwargs', 'G2_kwargs']
+LEN1 = [1, 2, 3, 30, 5, 29, 8, 4, 15, 6, 7]
+LEN2_QUICK = [(1, 1), (1, 2), (2, 1), (2, 2), (3, 4), (5, 2), (30, 1), (1, 30), (29, 2), (2, 29),
+              (6, 6), (4, 3), (30, 3)]
+LEN2_MORE = [(30, 30), (29, 30), (30, 29), (3, 30)]
 INT_FORMS = ('ilist', 'iarray', 'arange', 'range')
 
 
@@ -45,6 +54,10 @@ def _typed_grid(vals, form):
         return [float(v) for v in vals]
     if form == 'farray':
         return np.array([float(v) for v in vals])
+    if form == 'tuple':
+        return tuple(float(v) for v in vals)
+    if form == 'npscalars':
+        return [np.float64(v) for v in vals]
     iv = [int(v) for v in vals]
     if any(float(i) != float(v) for i, v in zip(iv, vals)):
         raise core.MachineryError('integer grid form for non-integer values')
@@ -74,6 +87,26 @@ def _table_dtype(tab):
 EXACT_NORMS = [1.0, 2.0, -1.0, 0.5, -4.0]
 UNITS = [None, 'kJ/mol', 'eV', 'kcal/mol', 'J/mol']
 SPAN_UNITS = ['eV', 'kJ/mol', 'kcal/mol', 'J/mol']
+
+
+def all_units():
+    """Every energy unit pmutt.constants.R knows ('<unit>/K' keys of its table), read from
+    the library so that a new unit is picked up; at least the 16 documented ones."""
+    import inspect
+    import re
+    from pmutt import constants as c
+    found = re.findall(r"'([^']+)/K'\s*:", inspect.getsource(c.R))
+    units = []
+    for u in found:
+        if u not in units:
+            try:
+                c.R(u + '/K')
+                units.append(u)
+            except Exception:
+                pass
+    if len(units) < 16:
+        raise core.MachineryError('could not enumerate the units of constants.R: %r' % (units,))
+    return units
 
 
 # --------------------------------------------------------------------------
@@ -123,7 +156,7 @@ def _temperature(kw, names_values):
     return float(kw.get('T', 0.0))
 
 
-def record_scan1(pd, norms, x_name, x_values, G_units, kw, k=0):
+def record_scan1(pd, norms, x_name, x_values, G_units, kw, k=0, ret_tab=False):
     """Call get_GoRT_1D, return the event (or a 'raised' marker)."""
     import numpy as np
     from pmutt import constants as c
@@ -141,6 +174,7 @@ def record_scan1(pd, norms, x_name, x_values, G_units, kw, k=0):
     tab, st = pd.get_GoRT_1D(x_name=x_name, x_values=x_values, G_units=G_units, **dict(kw))
     dt = _table_dtype(tab)
     dt['g1int'] = _int_typed(x_values)
+    raw_tab = tab
     tab = np.asarray(tab, dtype=float)
     ev = {'ev': 'scan1', 'n': n, 'np': npts, 'k': int(k), 'units': G_units is not None,
           'x1': str(x_name),
@@ -151,10 +185,12 @@ def record_scan1(pd, norms, x_name, x_values, G_units, kw, k=0):
           'finite': _finite_all(tab) and _finite_all(own)}
     ev.update(_stable_fields(st))
     ev.update(dt)
+    if ret_tab:
+        return ev, np.asarray(st), raw_tab
     return ev, np.asarray(st)
 
 
-def record_scan2(pd, norms, x1_name, x1_values, x2_name, x2_values, G_units, kw):
+def record_scan2(pd, norms, x1_name, x1_values, x2_name, x2_values, G_units, kw, ret_tab=False):
     import numpy as np
     from pmutt import constants as c
     n, npts, nq = len(pd.reactions), len(x1_values), len(x2_values)
@@ -176,6 +212,7 @@ def record_scan2(pd, norms, x1_name, x1_values, x2_name, x2_values, G_units, kw)
                              x2_values=x2_values, G_units=G_units, **dict(kw))
     dt = _table_dtype(tab)
     dt['g1int'], dt['g2int'] = _int_typed(x1_values), _int_typed(x2_values)
+    raw_tab = tab
     tab = np.asarray(tab, dtype=float)
     ev = {'ev': 'scan2', 'n': n, 'np': npts, 'nq': nq, 'units': G_units is not None,
           'x1': str(x1_name), 'x2': str(x2_name),
@@ -186,6 +223,8 @@ def record_scan2(pd, norms, x1_name, x1_values, x2_name, x2_values, G_units, kw)
           'finite': _finite_all(tab) and _finite_all(own)}
     ev.update(_stable_fields(st))
     ev.update(dt)
+    if ret_tab:
+        return ev, np.asarray(st), raw_tab
     return ev, np.asarray(st)
 
 
@@ -223,7 +262,7 @@ def _later_reactant_extreme(steps):
     return any(st['r'] > max(rest) or st['r'] < min(rest) for st in steps[1:])
 
 
-def record_span(rxns, api, units, kw):
+def record_span(rxns, api, units, kw, holder='Reactions'):
     from pmutt.reaction import Reactions
     from pmutt.reaction.network import Network, state_to_set
     steps = _step_energies(rxns, units, kw)
@@ -231,7 +270,12 @@ def record_span(rxns, api, units, kw):
     ev = {'ev': 'span', 'api': api, 'contig': _is_contiguous(rxns),
           'lrx': _later_reactant_extreme(steps)}
     if api == 'reactions':
-        span = Reactions(reactions=list(rxns)).get_E_span(units=units, **dict(kw))
+        if holder == 'PhaseDiagram':               # inherits Reactions.get_E_span
+            from pmutt.reaction.phasediagram import PhaseDiagram
+            obj = PhaseDiagram(reactions=list(rxns))
+        else:
+            obj = Reactions(reactions=list(rxns))
+        span = obj.get_E_span(units=units, **dict(kw))
         ev['steps'] = [{'r': _dec_nested(st['r']), 't': _dec_nested(st['t']), 'p': _dec_nested(st['p'])}
                        for st in steps]
     else:
@@ -249,7 +293,15 @@ def record_span(rxns, api, units, kw):
             path.append(state_to_set(rxn.products, rxn.products_stoich))
         if len(set(path)) != len(path) or any(p not in net.graph.nodes for p in path):
             raise core.MachineryError('driver built an invalid network path')
-        span = net.get_E_span(path=path, units=units, **dict(kw))
+        if api == 'network_min':
+            # a linear sequence has exactly one simple path between its ends: the minimum
+            # span over the paths is the span of the sequence
+            from pmutt.reaction import _write_reaction_state
+            src = _write_reaction_state(rxns[0].reactants, rxns[0].reactants_stoich)
+            tgt = _write_reaction_state(rxns[-1].products, rxns[-1].products_stoich)
+            span = net.get_min_E_span(source=src, target=tgt, units=units, **dict(kw))
+        else:
+            span = net.get_E_span(path=path, units=units, **dict(kw))
         ev['G'] = _dec_nested(G)
     span = float(span)
     ev['finite'] = core.finite(span) and _finite_all(flat)
@@ -397,7 +449,7 @@ def _exec_two(case):
     return events, mism
 
 
-def _chain(energies_by_state, ts, mk, extras=None):
+def _chain(energies_by_state, ts, mk, extras=None, rcls='Reaction'):
     """Reactions of a linear sequence; energies_by_state lists the intermediates and
     transition states without repetition (I0, [TS1], I1, [TS2], I2, ...).  extras[s] may
     give step s a co-reactant ('co': joins the reactants of step s, s >= 1) and / or a
@@ -423,7 +475,7 @@ def _chain(energies_by_state, ts, mk, extras=None):
         if ex.get('by'):
             prod.append(ex['by'][0])
             pst.append(ex['by'][1])
-        rxns.append(Reaction(reactants=reac, reactants_stoich=rst,
+        rxns.append(_make_reaction(rcls, reactants=reac, reactants_stoich=rst,
                              products=prod, products_stoich=pst,
                              transition_state=tsp[0] if tsp else None,
                              transition_state_stoich=tsp[1] if tsp else None))
@@ -534,20 +586,26 @@ def _random_phase(rnd, kind, sp, i, n1, n2, suffix='PH'):
     return _nasa(name, a, 'S')
 
 
-def _grid(rnd, var, m, form='list'):
-    """m grid values of a scan variable (ascending, descending or shuffled) in the given
-    container / element type; integer forms draw integer temperatures / pressures."""
+def _grid(rnd, var, m, form='list', order=None):
+    """m grid values of a scan variable in the given container / element type and order
+    (asc, desc, shuf = as drawn, dup = unsorted with a repeated value); integer forms draw
+    integer temperatures / pressures; arange / range can only be asc / desc.  Returns
+    (values, effective form, effective order)."""
+    if order is None:
+        order = rnd.choice(['asc', 'asc', 'desc', 'shuf'])
     if var not in ('T', 'P'):
-        form = 'list'
+        form = 'dicts'
+    if form in ('arange', 'range') and order in ('shuf', 'dup'):
+        form = 'iarray'
     if form in ('arange', 'range'):
         if var == 'T':
             start, step = rnd.randint(250, 600), rnd.randint(5, 40)
         else:
             start, step = rnd.randint(1, 5), rnd.randint(1, 4)
         vals = [start + step * i for i in range(m)]
-        if rnd.random() < 0.25:
+        if order == 'desc':
             vals.reverse()
-        return _typed_grid(vals, form)
+        return _typed_grid(vals, form), form, order
     if form in INT_FORMS:
         pool = range(250, 1501) if var == 'T' else range(1, 121)
         vals = rnd.sample(pool, m)
@@ -555,22 +613,30 @@ def _grid(rnd, var, m, form='list'):
         vals = [rnd.uniform(250.0, 1500.0) for _ in range(m)]
     else:
         vals = [10.0 ** rnd.uniform(-6.0, 2.0) for _ in range(m)]
-    mode = rnd.random()
-    if mode < 0.5:
+    if order == 'asc':
         vals.sort()
-    elif mode < 0.7:
+    elif order == 'desc':
         vals.sort(reverse=True)
+    elif order == 'dup' and m >= 2:
+        vals[-1] = vals[0]
     if var in ('T', 'P'):
-        return _typed_grid(vals, form)
-    return [{'P': v} for v in vals]
+        return _typed_grid(vals, form), form, order
+    return [{'P': v} for v in vals], form, order
+
+
+def _make_reaction(cls_name, **kw):
+    from pmutt.reaction import Reaction, ChemkinReaction
+    from pmutt.omkm.reaction import SurfaceReaction
+    return {'Reaction': Reaction, 'ChemkinReaction': ChemkinReaction,
+            'SurfaceReaction': SurfaceReaction}[cls_name](**kw)
 
 
 def _exec_rpd(case):
     import numpy as np
-    from pmutt.reaction import Reaction
     from pmutt.reaction.phasediagram import PhaseDiagram
     rnd = random.Random(case['seed'])
     kind = case['species']
+    rcls = case.get('rcls', 'Reaction')
     names = case.get('names') or {'R': 'R', 'G1': 'G1', 'G2': 'G2'}
     sp = _random_species(rnd, kind, names)
     n = case['n']
@@ -579,11 +645,12 @@ def _exec_rpd(case):
         return names[v[:-7]] + '_kwargs' if v.endswith('_kwargs') else v
 
     rxns, stoich = [], []
-    for i in range(n):
+    n_new = n - 1 if (case.get('dup_rxn') and n >= 2) else n
+    for i in range(n_new):
         if i == 0 and rnd.random() < 0.5:
             n1 = n2 = 0.0                                   # the clean surface  R = R
-            rxns.append(Reaction(reactants=[sp['R']], reactants_stoich=[1.0],
-                                 products=[sp['R']], products_stoich=[1.0]))
+            rxns.append(_make_reaction(rcls, reactants=[sp['R']], reactants_stoich=[1.0],
+                                       products=[sp['R']], products_stoich=[1.0]))
         else:
             n1 = rnd.choice([0.0, 0.5, 1.0, 1.0, 2.0, 3.0, 4.0, 8.0])
             n2 = rnd.choice([0.0, 0.0, 0.5, 1.0, 2.0])
@@ -598,57 +665,118 @@ def _exec_rpd(case):
             if n2:
                 reac.append(sp['G2'])
                 rst.append(n2)
-            rxns.append(Reaction(reactants=reac, reactants_stoich=rst, products=[ph],
-                                 products_stoich=[1.0]))
+            rxns.append(_make_reaction(rcls, reactants=reac, reactants_stoich=rst, products=[ph],
+                                       products_stoich=[1.0]))
         stoich.append((n1, n2))
     nm = case['norm_mode']
     if nm == 'none':
-        norms, arg = [1.0] * n, None
+        norms, arg = [1.0] * n_new, None
     else:
         norms = []
         for (n1, n2) in stoich:
             if nm == 'coverage':
                 v = max(n1 + n2, 0.5)
+            elif nm == 'int':
+                v = rnd.choice([1, 2, 3, 4, 8, 16])
+            elif nm == 'logsigned':
+                v = 10.0 ** rnd.uniform(-3.0, 3.0) * (-1.0 if rnd.random() < 0.5 else 1.0)
             else:
                 v = rnd.uniform(0.05, 25.0) * (-1.0 if (nm == 'signed' and rnd.random() < 0.4) else 1.0)
             norms.append(v)
-        arg = np.array(norms) if rnd.random() < 0.7 else list(norms)
+        if nm == 'signed' and n_new >= 1 and all(v > 0 for v in norms):
+            norms[-1] = -norms[-1]
+    if n_new < n:
+        # the same candidate listed twice (same reaction object, same factor): an exact tie
+        d = rnd.randrange(n_new)
+        rxns.append(rxns[d])
+        norms.append(norms[d])
+    if nm != 'none':
+        cont = case.get('norm_container') or ('ndarray' if rnd.random() < 0.7 else 'list')
+        arg = (np.array(norms) if cont == 'ndarray' else tuple(norms) if cont == 'tuple' else list(norms))
     pd = PhaseDiagram(reactions=rxns, norm_factors=arg)
+    if case.get('ctor') == 'from_dict':
+        pd = PhaseDiagram.from_dict(pd.to_dict())
+    cls = ['pd.n:%d' % n, 'pd.norm:' + nm, 'pd.rcls:' + rcls, 'pd.ctor:' + case.get('ctor', 'direct'),
+           'pd.species:' + kind]
+    if nm != 'none':
+        cls.append('pd.normc:' + cont)
+        if any(v < 0 for v in norms):
+            cls.append('pd.norm:negative_present')
+    if n_new < n:
+        cls.append('pd.dup_reaction')
     units = case['units']
     fixed = {'T': rnd.uniform(300.0, 1200.0), 'P': 10.0 ** rnd.uniform(-4.0, 1.0),
              var('G1_kwargs'): {'P': 10.0 ** rnd.uniform(-5.0, 1.0)},
              var('G2_kwargs'): {'P': 10.0 ** rnd.uniform(-5.0, 1.0)}}
-    events = []
+    events, kept = [], []
+
+    def lenclass(m):
+        return str(m) if m in (1, 2, 29, 30) else 'mid'
+
     v1 = var(case['x1'])
-    g1 = _grid(rnd, v1, case['m1'], case.get('f1', 'list'))
+    g1, f1, o1 = _grid(rnd, v1, case['m1'], case.get('f1', 'list'), case.get('o1'))
     if case['dim'] == 1:
         kw = {k: v for k, v in fixed.items() if k != v1 and (k in ('T', 'P') or rnd.random() < 0.4)}
-        ev, _ = record_scan1(pd, norms, v1, g1, units, kw)
+        tags = cls + ['scan1.units:%s' % units, 'scan1.var:' + case['x1'], 'scan1.len:' + lenclass(case['m1']),
+                      'scan1.form:' + f1] + (['scan1.order:' + o1] if case['m1'] >= 3 else [])
+        ev, _, tab = record_scan1(pd, norms, v1, g1, units, kw, ret_tab=True)
+        ev['cls'] = tags
         events.append(ev)
+        kept.append((ev, tab))
+        # the same call once more on the same object
+        ev, _, tab = record_scan1(pd, norms, v1, g1, units, kw, ret_tab=True)
+        ev['cls'] = ['pd.repeat_call']
+        events.append(ev)
+        kept.append((ev, tab))
     else:
         v2 = var(case['x2'])
-        g2 = _grid(rnd, v2, case['m2'], case.get('f2', 'list'))
+        g2, f2, o2 = _grid(rnd, v2, case['m2'], case.get('f2', 'list'), case.get('o2'))
         kw = {k: v for k, v in fixed.items()
               if k not in (v1, v2) and (k in ('T', 'P') or rnd.random() < 0.4)}
-        ev, _ = record_scan2(pd, norms, v1, g1, v2, g2, units, kw)
+        tags = cls + ['scan2.units:%s' % units, 'scan2.vars:%s,%s' % (case['x1'], case['x2']),
+                      'scan2.len1:' + lenclass(case['m1']), 'scan2.len2:' + lenclass(case['m2']),
+                      'scan2.form1:' + f1, 'scan2.form2:' + f2]
+        tags += (['scan2.order1:' + o1] if case['m1'] >= 3 else [])
+        tags += (['scan2.order2:' + o2] if case['m2'] >= 3 else [])
+        ev, _, tab = record_scan2(pd, norms, v1, g1, v2, g2, units, kw, ret_tab=True)
+        ev['cls'] = tags
         events.append(ev)
+        kept.append((ev, tab))
         ks = list(range(len(g2)))
         rnd.shuffle(ks)
         for k in sorted(ks[:case.get('slices', 2)]):
             kw1 = dict(kw)
             kw1[v2] = g2[k]
-            ev1, _ = record_scan1(pd, norms, v1, g1, units, kw1, k=k + 1)
+            ev1, _, tab = record_scan1(pd, norms, v1, g1, units, kw1, k=k + 1, ret_tab=True)
             events.append(ev1)
-    return events, []
+            kept.append((ev1, tab))
+    # a table handed out earlier must still hold what was recorded when it was returned
+    mism = []
+    for ev, tab in kept:
+        if _dec_nested(np.asarray(tab, dtype=float).tolist()) != ev['tab']:
+            mism.append(('ReturnedTableKept', {'op': ev['ev']}))
+    return events, mism
+
+
+def _reverse_sequence(rxns):
+    """The same pathway walked backwards: every step reversed, steps in reverse order."""
+    out = []
+    for r in reversed(rxns):
+        out.append(type(r)(reactants=r.products, reactants_stoich=r.products_stoich,
+                           products=r.reactants, products_stoich=r.reactants_stoich,
+                           transition_state=r.transition_state,
+                           transition_state_stoich=r.transition_state_stoich))
+    return out
 
 
 def _exec_rspan(case):
     from pmutt.statmech import StatMech, presets
     rnd = random.Random(case['seed'])
     ts = case['ts']
-    gas = None
+    rcls = case.get('rcls', 'Reaction')
+    gas, gname = None, case.get('gname', 'GAS')
     if case['gas']:
-        gas = _nasa('GAS', [3.5, rnd.uniform(0, 1e-3), 0, 0, 0, rnd.uniform(-1e3, 1e3),
+        gas = _nasa(gname, [3.5, rnd.uniform(0, 1e-3), 0, 0, 0, rnd.uniform(-1e3, 1e3),
                             rnd.uniform(2, 8)], 'G')
     e, energies = rnd.uniform(-3.0, 3.0), []
     energies.append(e)
@@ -660,12 +788,17 @@ def _exec_rspan(case):
         energies.append(nxt)
         e = nxt
 
-    def mk(name, en, is_ts):
-        vib = [rnd.uniform(80, 3200) for _ in range(rnd.randint(0, 5))]
+    def species(name, en, nvib):
+        if rcls == 'ChemkinReaction':         # needs species with a phase: NASA polynomials
+            return _nasa(name, [rnd.uniform(1, 4), rnd.uniform(-1e-3, 1e-3), 0, 0, 0, en * 11604.5,
+                                rnd.uniform(-3, 3)], 'S')
+        vib = [rnd.uniform(80, 3200) for _ in range(nvib)]
         if vib:
-            s = StatMech(name=name, potentialenergy=en, vib_wavenumbers=vib, **presets['harmonic'])
-        else:
-            s = StatMech(name=name, potentialenergy=en, **presets['electronic'])
+            return StatMech(name=name, potentialenergy=en, vib_wavenumbers=vib, **presets['harmonic'])
+        return StatMech(name=name, potentialenergy=en, **presets['electronic'])
+
+    def mk(name, en, is_ts):
+        s = species(name, en, rnd.randint(0, 5))
         if gas is not None and not is_ts and rnd.random() < 0.4:
             return ([s, gas], [1.0, rnd.choice([0.5, 1.0, 2.0])])
         return ([s], [1.0])
@@ -678,23 +811,41 @@ def _exec_rspan(case):
         for k in range(len(ts)):
             ex = {}
             if k > 0 and rnd.random() < 0.5:
-                ex['co'] = (StatMech(name='X%d' % k, potentialenergy=rnd.uniform(-3.0, 3.0),
-                                     **presets['electronic']), rnd.choice([1.0, 1.0, 0.5, 2.0]))
+                ex['co'] = (species('X%d' % k, rnd.uniform(-3.0, 3.0), 0), rnd.choice([1.0, 1.0, 0.5, 2.0]))
             if k + 1 < len(ts) and rnd.random() < 0.4:
-                ex['by'] = (StatMech(name='Z%d' % k, potentialenergy=rnd.uniform(-3.0, 3.0),
-                                     vib_wavenumbers=[rnd.uniform(200, 3000)], **presets['harmonic']),
-                            1.0)
+                ex['by'] = (species('Z%d' % k, rnd.uniform(-3.0, 3.0), 1), 1.0)
             extras.append(ex)
-    rxns = _chain(energies, ts, mk, extras)
+    rxns = _chain(energies, ts, mk, extras, rcls)
+    if case.get('reversed'):
+        rxns = _reverse_sequence(rxns)
     kw = {'T': rnd.uniform(250.0, 1100.0)}
+    gas_used = gas is not None and any(gas in r.reactants or gas in r.products for r in rxns)
     if gas is not None:
-        kw['P'] = 10.0 ** rnd.uniform(-3.0, 1.5)
+        if case.get('gas_kw') == 'kwargs':    # the pressure as a per-species keyword
+            kw[gname + '_kwargs'] = {'P': 10.0 ** rnd.uniform(-3.0, 1.5)}
+        else:
+            kw['P'] = 10.0 ** rnd.uniform(-3.0, 1.5)
+    units = case['units']
+    holder = case.get('holder', 'Reactions')
+    tsmode = 'all' if all(ts) else ('none' if not any(ts) else 'mixed')
+    cls = ['span.steps:%d' % len(ts), 'span.ts:' + tsmode, 'span.rcls:' + rcls, 'span.holder:' + holder]
+    if case.get('reversed'):
+        cls.append('span.reversed')
+    if gas_used:
+        cls.append('span.gas:' + ('kwargs' if case.get('gas_kw') == 'kwargs' else 'P'))
     events = []
-    ev, _ = record_span(rxns, 'reactions', case['units'] or 'eV', kw)
+    ev, _ = record_span(rxns, 'reactions', units or 'eV', kw, holder)
+    ev['cls'] = cls + ['span.units:%s' % (units or 'eV')]
     events.append(ev)
     if _is_contiguous(rxns):
-        ev, _ = record_span(rxns, 'network', case['units'], kw)
+        ev, _ = record_span(rxns, 'network', units, kw)
+        ev['cls'] = ['net.units:%s' % units]
         events.append(ev)
+        simple_names = all(len(r.reactants) == 1 and len(r.products) == 1 for r in rxns)
+        if case.get('min_span') and simple_names:
+            ev, _ = record_span(rxns, 'network_min', units, kw)
+            ev['cls'] = ['net.min_single_path', 'netmin.units:%s' % units]
+            events.append(ev)
     return events, []
 
 
@@ -767,38 +918,87 @@ def _tlc_cases(ctx, rnd):
 
 
 def _random_cases(ctx, rnd):
+    """Random real-valued cases.  Every enumerated input class (unit, number of reactions,
+    scan variable (pair), grid length class, container, order, norm-factor mode, reaction
+    class, number of steps, ...) is ROTATED deterministically so that each occurs in every
+    run; the seed only changes the values."""
     cases = []
-    n_pd = ctx.pick(160, 3000)
+    units = [None] + all_units()
+    pairs = [(a, b) for a in SCAN_VARS for b in SCAN_VARS if a != b]
+    len2 = LEN2_QUICK if ctx.quick else LEN2_QUICK + LEN2_MORE
+    n_pd = ctx.pick(170, 3000)
+    j1 = j2 = 0
     for i in range(n_pd):
-        dim = 1 if rnd.random() < 0.5 else 2
-        big = rnd.random() < (0.04 if ctx.quick else 0.10)
-        if dim == 1:
-            m1, m2 = (rnd.randint(20, 30) if big else rnd.randint(1, 9)), 0
-        else:
-            m1 = rnd.randint(12, 30) if big else rnd.randint(1, 6)
-            m2 = rnd.randint(12, 30) if big else rnd.randint(1, 6)
-            if big and ctx.quick:                 # quick: the long axis on one side only
-                if rnd.random() < 0.5:
-                    m1 = rnd.randint(1, 4)
-                else:
-                    m2 = rnd.randint(1, 4)
-        x1 = rnd.choice(['T', 'T', 'P', 'G1_kwargs', 'G2_kwargs'])
-        x2 = rnd.choice([v for v in ['T', 'P', 'G1_kwargs', 'G2_kwargs'] if v != x1])
+        dim = 1 if (i // len(units)) % 2 == 0 else 2
+        rcls = RXN_CLASSES[i % 3]
+        kind = 'nasa' if rcls == 'ChemkinReaction' else ['statmech', 'nasa'][(i // 3) % 2]
         gn = rnd.sample(GAS_NAMES, 2)
-        cases.append({'kind': 'rpd', 'seed': rnd.randrange(1 << 30), 'dim': dim,
-                      'names': {'R': rnd.choice(REF_NAMES), 'G1': gn[0], 'G2': gn[1]},
-                      'species': rnd.choice(['statmech', 'nasa']),
-                      'n': rnd.randint(1, 8), 'm1': m1, 'm2': m2, 'x1': x1, 'x2': x2,
-                      'norm_mode': rnd.choice(['none', 'coverage', 'positive', 'signed', 'signed']),
-                      'units': rnd.choice(UNITS), 'slices': 2,
-                      'f1': rnd.choice(GRID_FORMS), 'f2': rnd.choice(GRID_FORMS)})
-    for i in range(ctx.pick(400, 8000)):
-        steps = rnd.randint(1, 8)
-        cases.append({'kind': 'rspan', 'seed': rnd.randrange(1 << 30),
-                      'ts': [rnd.random() < 0.6 for _ in range(steps)],
-                      'gas': rnd.random() < 0.4, 'noncontig': steps >= 2 and rnd.random() < 0.6,
-                      'units': rnd.choice(SPAN_UNITS + [None])})
+        case = {'kind': 'rpd', 'seed': rnd.randrange(1 << 30), 'dim': dim,
+                'names': {'R': rnd.choice(REF_NAMES), 'G1': gn[0], 'G2': gn[1]},
+                'species': kind, 'rcls': rcls, 'n': 1 + (i % 8),
+                'norm_mode': NORM_MODES[i % len(NORM_MODES)],
+                'norm_container': NORM_CONTAINERS[(i // len(NORM_MODES)) % 3],
+                'dup_rxn': i % 5 == 2, 'ctor': 'from_dict' if (kind == 'nasa' and i % 4 == 1) else 'direct',
+                'units': units[i % len(units)], 'slices': 2}
+        if dim == 1:
+            q = j1 // 4
+            case.update({'x1': SCAN_VARS[j1 % 4], 'x2': SCAN_VARS[(j1 + 1) % 4], 'm1': LEN1[j1 % len(LEN1)],
+                         'm2': 0, 'f1': GRID_FORMS[q % len(GRID_FORMS)], 'f2': 'list',
+                         'o1': ORDERS[(q + q // len(GRID_FORMS)) % 4], 'o2': 'asc'})
+            j1 += 1
+        else:
+            m1, m2 = len2[j2 % len(len2)]
+            case.update({'x1': pairs[j2 % 12][0], 'x2': pairs[j2 % 12][1], 'm1': m1, 'm2': m2,
+                         'f1': GRID_FORMS[j2 % len(GRID_FORMS)], 'f2': GRID_FORMS[(j2 // 3) % len(GRID_FORMS)],
+                         'o1': ORDERS[j2 % 4], 'o2': ORDERS[(j2 // 5) % 4]})
+            j2 += 1
+        for f, o in (('f1', 'o1'), ('f2', 'o2')):     # arange / range are ascending or descending
+            if case[f] in ('arange', 'range') and case[o] in ('shuf', 'dup'):
+                case[o] = ['asc', 'desc'][(i // 2) % 2]
+        cases.append(case)
+    span_units = all_units() + [None]
+    for i in range(ctx.pick(410, 8000)):
+        steps = 1 + (i % 8)
+        mode = (i // 8) % 3
+        ts = [True] * steps if mode == 0 else [False] * steps if mode == 1 else \
+            [rnd.random() < 0.6 for _ in range(steps)]
+        rcls = RXN_CLASSES[i % 3]
+        cases.append({'kind': 'rspan', 'seed': rnd.randrange(1 << 30), 'ts': ts, 'rcls': rcls,
+                      'gas': i % 3 == 0, 'gas_kw': 'kwargs' if i % 6 == 0 else 'P',
+                      'gname': GAS_NAMES[i % len(GAS_NAMES)],
+                      'noncontig': steps >= 2 and i % 5 in (1, 2, 3), 'reversed': i % 4 == 1,
+                      'holder': ['Reactions', 'PhaseDiagram'][(i // 2) % 2], 'min_span': i % 2 == 0,
+                      'units': span_units[i % len(span_units)]})
     return cases
+
+
+def _expected_classes():
+    """Every input class a (non-replay) run must have exercised at least once."""
+    us = [str(u) for u in [None] + all_units()]
+    lens = ['1', '2', '29', '30', 'mid']
+    exp = []
+    exp += ['scan1.units:' + u for u in us] + ['scan2.units:' + u for u in us]
+    exp += ['pd.n:%d' % k for k in range(1, 9)]
+    exp += ['pd.norm:' + m for m in NORM_MODES] + ['pd.norm:negative_present']
+    exp += ['pd.normc:' + c for c in NORM_CONTAINERS]
+    exp += ['pd.rcls:' + c for c in RXN_CLASSES] + ['pd.ctor:direct', 'pd.ctor:from_dict']
+    exp += ['pd.species:statmech', 'pd.species:nasa', 'pd.dup_reaction', 'pd.repeat_call']
+    exp += ['scan1.var:' + v for v in SCAN_VARS]
+    exp += ['scan2.vars:%s,%s' % (a, b) for a in SCAN_VARS for b in SCAN_VARS if a != b]
+    exp += ['scan1.len:' + c for c in lens]
+    exp += ['scan2.len1:' + c for c in lens] + ['scan2.len2:' + c for c in lens]
+    exp += ['scan1.form:' + f for f in GRID_FORMS + ['dicts']]
+    exp += ['scan2.form1:' + f for f in GRID_FORMS + ['dicts']]
+    exp += ['scan2.form2:' + f for f in GRID_FORMS + ['dicts']]
+    exp += ['scan1.order:' + o for o in ORDERS]
+    exp += ['scan2.order1:' + o for o in ORDERS] + ['scan2.order2:' + o for o in ORDERS]
+    exp += ['span.units:' + u for u in us[1:]] + ['net.units:' + u for u in us]
+    exp += ['netmin.units:' + u for u in us] + ['net.min_single_path']
+    exp += ['span.steps:%d' % k for k in range(1, 9)] + ['span.ts:all', 'span.ts:none', 'span.ts:mixed']
+    exp += ['span.rcls:' + c for c in RXN_CLASSES]
+    exp += ['span.holder:Reactions', 'span.holder:PhaseDiagram', 'span.reversed', 'span.gas:P',
+            'span.gas:kwargs']
+    return exp
 
 
 def _signature(case):
@@ -883,7 +1083,12 @@ def run(ctx):
            'scan2_integer_typed_first_grid': 0, 'scan2_integer_typed_second_grid': 0,
            'scan1_integer_typed_grid': 0,
            'scans_over_per_species_variable': 0,
-           'scans_over_per_species_variable_name_ending_in_kwargs_chars': 0}
+           'scans_over_per_species_variable_name_ending_in_kwargs_chars': 0,
+           'scans_with_exact_tie_at_a_minimum': 0, 'span_network_min': 0,
+           'span_highest_is_first_state': 0, 'span_highest_is_last_state': 0,
+           'span_lowest_is_first_state': 0, 'span_lowest_is_last_state': 0,
+           'span_tied_highest': 0, 'span_tied_lowest': 0}
+    classes = {}
 
     def flat(x):
         return [z for y in x for z in flat(y)] if isinstance(x, list) else [x]
@@ -897,13 +1102,22 @@ def run(ctx):
                                          'api': detail.get('api')}, detail))
         traces.append((tid, events))
         for e in events:                       # coverage statistics only (no judgement)
+            for c in e.get('cls', ()):
+                classes[c] = classes.get(c, 0) + 1
             if e['ev'] == 'span':
-                cov['span_' + e['api']] += 1
+                cov['span_' + e['api']] = cov.get('span_' + e['api'], 0) + 1
                 gd = e['G'] if 'G' in e else [x for st in e['steps'] for x in [st['r']] + st['t'] + [st['p']]]
                 g = [m * 10.0 ** x for m, x in gd]
                 if e['api'] == 'reactions' and not e['contig']:
                     cov['span_noncontiguous'] += 1
                     cov['span_noncontiguous_later_reactant_extreme'] += 1 if e['lrx'] else 0
+                cov['span_highest_is_first_state'] += 1 if g[0] == max(g) else 0
+                cov['span_highest_is_last_state'] += 1 if g[-1] == max(g) else 0
+                cov['span_lowest_is_first_state'] += 1 if g[0] == min(g) else 0
+                cov['span_lowest_is_last_state'] += 1 if g[-1] == min(g) else 0
+                if len(set(g)) > 1:
+                    cov['span_tied_highest'] += 1 if g.count(max(g)) > 1 and e['api'] != 'reactions' else 0
+                    cov['span_tied_lowest'] += 1 if g.count(min(g)) > 1 and e['api'] != 'reactions' else 0
                 if g.index(max(g)) < g.index(min(g)):
                     cov['span_highest_before_lowest'] += 1
                 elif g.index(max(g)) > g.index(min(g)):
@@ -924,11 +1138,21 @@ def run(ctx):
                 cov['slices_compared'] += 1 if e.get('k', 0) > 0 else 0
                 cov['scans_with_phase_change'] += 1 if len(set(flat(e['st']))) > 1 else 0
                 cov['scans_shape_discriminating'] += 1 if e['n'] != e['np'] else 0
+                if e['ev'] == 'scan1' and e['n'] >= 2 and e['tabshape'] == [e['n'], e['np']]:
+                    for j in range(e['np']):
+                        col = sorted(m * 10.0 ** x for m, x in (row[j] for row in e['tab']))
+                        if col[0] == col[1]:
+                            cov['scans_with_exact_tie_at_a_minimum'] += 1
+                            break
         if tid % 797 == 0:
             ctx.sample({k: v for k, v in case.items() if k not in ('acc',)})
     ctx.coverage['exercised'] = cov
-    if ctx.replay_case is None and min(cov.values()) == 0:
-        raise core.MachineryError('vacuous run: %r' % (cov,))
+    ctx.coverage['input_classes'] = dict(sorted(classes.items()))
+    if ctx.replay_case is None:
+        missing = [c for c in _expected_classes() if not classes.get(c)]
+        missing += [k for k, v in cov.items() if v == 0]
+        if missing:
+            raise core.MachineryError('vacuous run, input classes never exercised: %r' % (missing,))
     fails, stats = core.validate_traces('Trace_Extrema', 'Trace_Extrema', traces)
     ctx.count('traces_validated_against_impl', len(traces))
     ctx.coverage['trace_lines'] = stats['lines']
